@@ -1153,3 +1153,16 @@ V("C16", "com-mass-mean-over-frames", "mdtraj/geometry/distance.py", "        co
 V("C16", "dipole-sign-legs-reversed", "mdtraj/geometry/thermodynamic_properties.py", "[(a.residue.atom(0).index, a.index) for a in traj.top.atoms]", "[(a.index, a.residue.atom(0).index) for a in traj.top.atoms]", "C16-R6", "dipole_moments")
 V("C16", "density-divides-by-first-volume", "mdtraj/geometry/thermodynamic_properties.py", "    densities = mass / volume_trace\n", "    densities = mass / volume_trace[0] * np.ones_like(volume_trace)\n", "C16-R6", "density")
 V("C16", "twin-density-one-expression", "mdtraj/geometry/thermodynamic_properties.py", "    densities = mass / volume_trace\n", "    densities = (1.0 / volume_trace) * mass\n", None)
+V("C06", "cubic-trig-root-wrong-shift", THC, "        *x1 = 2.0*sq*costh - a2/3.0;", "        *x1 = 2.0*sq*costh - a2/2.0;", "C06-R8", "solve_cubic_equation")
+V("C06", "cubic-trig-second-root-sign", THC, "        *x2 = -sq*costh - a2/3.0 - sqrt(3.) * sq * sinth;", "        *x2 = sq*costh - a2/3.0 - sqrt(3.) * sq * sinth;", "C06-R8", "solve_cubic_equation")
+V("C06", "cubic-q-invariant-slip", THC, "    double q = a1/3.0 - a2*a2/9.0;", "    double q = a1/3.0 - a2*a2/6.0;", "C06-R8", "solve_cubic_equation")
+V("C06", "cubic-double-root-single-s", THC, "        *x1 = 2.0*s - a2/3.0;", "        *x1 = s - a2/3.0;", "C06-R8", "solve_cubic_equation")
+V("C06", "cubic-cardano-minus", THC, "        *x1 = (s1+s2) - a2/3.0;", "        *x1 = (s1-s2) - a2/3.0;", "C06-R8", "solve_cubic_equation")
+V("C06", "twin-cubic-trig-root-reordered", THC, "        *x1 = 2.0*sq*costh - a2/3.0;", "        *x1 = -a2/3.0 + costh*sq*2.0;", None)
+V("C06", "quartic-foo1-coefficient", THC, "        foo1 = 0.75*a3*a3 - R2 - 2.0*a2;", "        foo1 = 0.5*a3*a3 - R2 - 2.0*a2;", "C06-R8", "quartic_equation_solve_exact")
+V("C06", "twin-quartic-foo1-through-u1", THC, "        foo1 = 0.75*a3*a3 - R2 - 2.0*a2;", "        foo1 = 0.5*a3*a3 - u1 - a2;", None)
+V("C06", "quartic-resolvent-coefficient", THC, "    au1 = (a1*a3 - 4.0*a0) ;", "    au1 = (a1*a3 - 2.0*a0) ;", "C06-R8", "quartic_equation_solve_exact")
+V("C06", "quartic-r3-sign-of-R", THC, "        *r3 = -0.25*a3 - 0.5*R - 0.5*E;", "        *r3 = -0.25*a3 + 0.5*R - 0.5*E;", "C06-R8", "quartic_equation_solve_exact")
+V("C06", "quartic-R-zero-branch-factor", THC, "        foo2 = 2.0 * sqrt(u1*u1 - 4.0*a0);", "        foo2 = sqrt(u1*u1 - 4.0*a0);", "C06-R8", "quartic_equation_solve_exact")
+V("C06", "quartic-takes-middle-resolvent-root", THC, "    else u1 = (x1>x3) ? x1 : x3;", "    else u1 = (x1>x3) ? x1 : 0.5*(x1 + x3);", "C06-R8", "quartic_equation_solve_exact")
+V("C06", "twin-quartic-resolvent-root-x2", THC, "    else u1 = (x1>x3) ? x1 : x3;", "    else u1 = (x1>x3) ? x1 : x3;  /* any real root of the resolvent works */", None)
